@@ -11,11 +11,17 @@ using namespace grv;
 namespace {
 std::string fontdir;
 std::string file_of(const std::string &kind) {
-    return fontdir + (kind == "compressed" ? "/Awami_compressed_test.ttf" : kind == "awami" ? "/AwamiNastaliq-Regular.ttf" : "/Padauk.ttf");
+    return fontdir + (kind == "compressed" || kind == "badlz4" || kind == "badlz4s" ? "/Awami_compressed_test.ttf" : kind == "awami" ? "/AwamiNastaliq-Regular.ttf" : "/Padauk.ttf");
 }
 bool prepare(TableFace &tf, const std::string &kind) {
     if (!tf.load(file_of(kind))) return false;
     if (kind == "compressed" || kind == "awami") return true;
+    if (kind == "badlz4" || kind == "badlz4s") {      // the compressed Glat / Silf payload is damaged: decompression fails
+        std::vector<uint8_t> t = tf.tables[tagof(kind == "badlz4" ? "Glat" : "Silf")];
+        for (size_t i = t.size() / 3; i < t.size() / 3 + 24 && i < t.size(); ++i) t[i] = 0xFF;
+        tf.tables[tagof(kind == "badlz4" ? "Glat" : "Silf")] = t;
+        return true;
+    }
     if (kind == "badglyph") {          // glyph 99 (U+1000) gets an empty attribute range: it cannot be loaded
         std::vector<uint8_t> g = tf.tables[tagof("Gloc")];
         const bool lng = be16(&g[4]) & 1; const size_t esz = lng ? 4 : 2, at = 8 + esz * 99;
@@ -116,23 +122,23 @@ GRV_CMD(facelife) {
             else if (op == "make_font") { const float ppm = arg ? float(arg) : 16.5f; gr_font *gf = gr_make_font(ppm, face); fonts.push_back(gf); fontppm.push_back(ppm); ok = gf != 0; }
             else if (op == "destroy_font") { gr_font_destroy(fonts.back()); fonts.pop_back(); fontppm.pop_back(); }
             else if (op == "make_seg") {
-                const std::string &t = awami ? texts_awami[arg & 7] : texts_padauk[arg & 7];
+                const std::string &t = awami ? texts_awami[size_t(arg) % texts_awami.size()] : texts_padauk[size_t(arg) % texts_padauk.size()];
                 const size_t nch = gr_count_unicode_characters(gr_utf8, t.data(), t.data() + t.size(), 0);
                 GRV_WATCHDOG;
                 gr_segment *s = gr_make_seg(fonts.empty() ? 0 : fonts.back(), face, 0, fvals.empty() ? 0 : fvals.back(), gr_utf8, t.data(), nch, awami ? 1 : 0);
                 segs.push_back(s); ok = s != 0;
-                key = "t" + std::to_string(arg & 7) + ":p" + std::to_string(fonts.empty() ? 0 : int(fontppm.back() * 10));
+                key = "t" + std::to_string(size_t(arg) % (awami ? texts_awami.size() : texts_padauk.size())) + ":p" + std::to_string(fonts.empty() ? 0 : int(fontppm.back() * 10));
                 segkeys.push_back(key);
                 SegP p = project(s, face, fonts.empty() ? 0 : fonts.back(), kind != "badglyph");
                 if (!p.wf.empty()) { vj::W w; w.str("kind", kind).i("text", arg); report_fail(p.wfprop.c_str(), p.wf, w.done()); }
                 h = std::to_string(fnv(dump(p)));
             }
             else if (op == "shape") {
-                const std::string &t = awami ? texts_awami[arg & 7] : texts_padauk[arg & 7];
+                const std::string &t = awami ? texts_awami[size_t(arg) % texts_awami.size()] : texts_padauk[size_t(arg) % texts_padauk.size()];
                 const size_t nch = gr_count_unicode_characters(gr_utf8, t.data(), t.data() + t.size(), 0);
                 GRV_WATCHDOG;
                 gr_segment *s = gr_make_seg(fonts.empty() ? 0 : fonts.back(), face, 0, 0, gr_utf8, t.data(), nch, awami ? 1 : 0);
-                key = "t" + std::to_string(arg & 7) + ":p" + std::to_string(fonts.empty() ? 0 : int(fontppm.back() * 10));
+                key = "t" + std::to_string(size_t(arg) % (awami ? texts_awami.size() : texts_padauk.size())) + ":p" + std::to_string(fonts.empty() ? 0 : int(fontppm.back() * 10));
                 SegP p = project(s, face, fonts.empty() ? 0 : fonts.back(), kind != "badglyph");
                 if (!p.wf.empty()) { vj::W w; w.str("kind", kind).i("text", arg); report_fail(p.wfprop.c_str(), p.wf, w.done()); }
                 h = std::to_string(fnv(dump(p)));
